@@ -215,8 +215,9 @@ SPECS = {
     'Check': (dict(COMMON, func='func', flagbuildnone='True'), [], [], ('C13',)),
     'Const': (dict(COMMON, value='value', flagbuildnone='True', subcon=('subcon', 'Bytes(len(value))')),
               ['not isinstance(value, bytes)', 'not isinstance(subcon, Construct)', 'not isinstance(Bytes(len(value)), Construct)'], [], ('C13', 'C03')),
-    'Switch': (dict(COMMON, keyfunc='keyfunc', cases='cases', default=('default', 'Pass'),
-                    flagbuildnone=('all((sc.flagbuildnone for sc in list(cases.values()) + [default]))', 'all((sc.flagbuildnone for sc in list(cases.values()) + [Pass]))')), [], [], ('C03', 'C05')),
+    'Switch': (dict(COMMON, keyfunc='keyfunc', cases='cases', default=('default', 'Pass', 'Pass if default is None else default'),
+                    flagbuildnone=('all((sc.flagbuildnone for sc in list(cases.values()) + [default]))', 'all((sc.flagbuildnone for sc in list(cases.values()) + [Pass]))',
+                                   'all((sc.flagbuildnone for sc in list(cases.values()) + [Pass if default is None else default]))')), [], [], ('C03', 'C05')),
     'FocusedSeq': (dict(COMMON, flagbuildnone='False', parsebuildfrom='parsebuildfrom', subcons=MEMBERS, _subcons=NAMED), [], [], ('C03', 'C07')),
     'Union': (dict(COMMON, flagbuildnone='False', parsefrom='parsefrom', subcons=MEMBERS, _subcons=NAMED), ['isinstance(parsefrom, Construct)'], [], ('C09', 'C07')),
     'Select': (dict(COMMON, subcons=MEMBERS, flagbuildnone='any((sc.flagbuildnone for sc in %s))' % MEMBERS), [], [], ('C09', 'C03')),
@@ -248,9 +249,17 @@ SPECS = {
 }
 
 
+class _Canon(ast.NodeTransformer):
+    """syntactic variants with the same meaning get one spelling: a list comprehension is list(<generator>)"""
+
+    def visit_ListComp(self, n):
+        self.generic_visit(n)
+        return ast.Call(func=ast.Name(id='list', ctx=ast.Load()), args=[ast.GeneratorExp(elt=n.elt, generators=n.generators)], keywords=[])
+
+
 def norm(s):
     try:
-        return ast.unparse(ast.parse(s, mode='eval'))
+        return ast.unparse(ast.fix_missing_locations(_Canon().visit(ast.parse(s, mode='eval'))))
     except SyntaxError:
         return s
 
